@@ -294,6 +294,14 @@ def generate(model: Model):
     except Exception:  # noqa: BLE001
         pass
     try:
+        mod, tree = _fresh("_repartition")
+        for cdef in (x for x in tree.body if isinstance(x, ast.ClassDef) and x.name == "Repartition"):
+            for fn in (x for x in cdef.body if isinstance(x, ast.FunctionDef) and x.name == "npartitions"):
+                for r_ in (x for x in ast.walk(fn) if isinstance(x, ast.Return) and "len(self.divisions)" in ast.unparse(x)):
+                    yield "mutant", "revert:repartition-reports-requested-count", "R06h", mod.rel, _splice(mod.source, r_.value, "new_partitions")
+    except Exception:  # noqa: BLE001
+        pass
+    try:
         mod, tree = _fresh("_merge")
         for cdef in (x for x in tree.body if isinstance(x, ast.ClassDef) and x.name == "Merge"):
             for fn in (x for x in cdef.body if isinstance(x, ast.FunctionDef) and x.name == "_filter_passthrough_available"):
